@@ -17,7 +17,7 @@ pub fn spec() -> Spec {
     Spec {
         prop: "C08",
         level: "exploration",
-        rule: "Pool reference model written from the statement (per signer: next nonce, waiting map nonce -> (payload, arrival block)); after every brc20_transact and every finalise the receipts (count, consecutive indexes, nonces, sender), txpool_contentFrom and eth_getTransactionCount are compared with the model; at the end the executed nonces of every signer must be 0,1,2,... each once. Exhaustive small scope: all arrival orders of nonces {0..k-1} of a fresh signer x all gap patterns from {same block,+1,+9,+10,+11} (k=3 quick, k=4 thorough) plus duplicate / replacement / stale / far-future / wrong-chain / undecodable variants; random beyond (3 signers, nonces to 15, interleaved inscription transactions, reorgs, clearCaches). After an expired entry is dropped the model admits both 'later entries kept' and 'later entries dropped'. Window runs: a signer parks the whole admissible window (or all but one / all but the last / a random subset) in shuffled order over one to three blocks while a second signer interferes, then the predecessor arrives. Restart/expiry runs: entries parked and committed, then a restart / clearCaches / nothing, then only empty blocks with the pool compared at every height until the entries have expired. Non-trivial = script in which >=1 transaction was parked and later drained or expired; distinct by (arrival order, gaps, variant).",
+        rule: "Pool reference model written from the statement (per signer: next nonce, waiting map nonce -> (payload, arrival block)); after every brc20_transact and every finalise the receipts (count, consecutive indexes, nonces, sender), txpool_contentFrom and eth_getTransactionCount are compared with the model; at the end the executed nonces of every signer must be 0,1,2,... each once. Exhaustive small scope: all arrival orders of nonces {0..k-1} of a fresh signer x all gap patterns from {same block,+1,+9,+10,+11} (k=3 quick, k=4 thorough) plus duplicate / replacement / stale / far-future / wrong-chain / no-chain-id (pre-EIP-155) / undecodable variants; random beyond (3 signers, nonces to 15, interleaved inscription transactions, reorgs, clearCaches). After an expired entry is dropped the model admits both 'later entries kept' and 'later entries dropped'. Window runs: a signer parks the whole admissible window (or all but one / all but the last / a random subset) in shuffled order over one to three blocks while a second signer interferes, then the predecessor arrives. Restart/expiry runs: entries parked and committed, then a restart / clearCaches / nothing, then only empty blocks with the pool compared at every height until the entries have expired. Non-trivial = script in which >=1 transaction was parked and later drained or expired; distinct by (arrival order, gaps, variant).",
         assumptions: vec!["inscription_byte_len >= raw length, so every signed transaction at the right nonce is valid and consumes its nonce".into()],
         exhaustive: false,
         min_nontrivial: 2,
@@ -160,8 +160,10 @@ impl<'a> Run<'a> {
         self.uniq += 1;
         let payload = reuse.unwrap_or(self.uniq);
         let data = asm::tool_call(asm::OP_SSTORE, &[asm::word_u64(3), asm::word_u64(payload)], &[]);
-        let chain_ok = variant != "wrong-chain";
-        let mut raw = s.sign(Some(if chain_ok { self.chain_id } else { 1 }), nonce, Some(hist::parse_addr(&self.tool)), &data);
+        // "no-chain": signed the pre-EIP-155 way, without any chain id - not a transaction of this chain either
+        let chain_ok = variant != "wrong-chain" && variant != "no-chain";
+        let chain = if variant == "no-chain" { None } else { Some(if chain_ok { self.chain_id } else { 1 }) };
+        let mut raw = s.sign(chain, nonce, Some(hist::parse_addr(&self.tool)), &data);
         if variant == "undecodable" {
             raw = format!("ff{}", &raw[..raw.len() / 2]);
         }
@@ -420,7 +422,7 @@ fn exhaustive(ctx: &WorkerCtx, rep: &mut WorkerReport, net: &str) {
                 ok = run.transact(rep, &s, *n, "replace");
             }
             if ok && *v == "noise" {
-                ok = run.transact(rep, &s, *n + 10 + j as u64, "far-future") && run.transact(rep, &s, *n, "wrong-chain") && (j != 1 || run.transact(rep, &s, *n, "undecodable"));
+                ok = run.transact(rep, &s, *n + 10 + j as u64, "far-future") && run.transact(rep, &s, *n, "wrong-chain") && run.transact(rep, &s, *n + (j as u64 % 2), "no-chain") && (j != 1 || run.transact(rep, &s, *n, "undecodable"));
             }
             if !ok {
                 break;
@@ -486,6 +488,7 @@ fn random_run(ctx: &WorkerCtx, rep: &mut WorkerReport, net: &str, case_seed: u64
                 }
                 let variant = match rng.below(20) {
                     0 => "wrong-chain",
+                    2 => "no-chain",
                     1 => "undecodable",
                     _ => "plain",
                 };
